@@ -299,7 +299,8 @@ impl<'a> Parser<'a> {
                         // relative backref
                         self.curr_group.checked_add_signed(group + 1)
                     },
-                    |group| Some(group),
+                    // protect BitSet against unreasonably large value
+                    |group: usize| Some(group).filter(|&group| group < self.re.len() / 2),
                 )
             } else {
                 None
